@@ -43,6 +43,13 @@ def main(ctx, args):
                     brk.append(b)
                     if not ctx.quick:
                         brk += [b + "+", "a" + b, "(" + b + ")*b", b + "{2}"]
+    # capture groups under repetition, option and alternation: the span of every group after backtracking
+    X = ["a", "ab", ".", "[ab]", "a|b", "(a)"] + ([] if ctx.quick else ["a*", "b?"])
+    Q = ["*", "+", "?", "{0,2}", "{2}", ""] + ([] if ctx.quick else ["{1,}"])
+    for x in X:
+        for q in Q:
+            g = "(" + x + ")" + q
+            brk += [g, g + "b", "a" + g + "ab", g + "c|ab"] + ([] if ctx.quick else ["(" + g + ")", g + "(b)", "(a)" + g, g + g])
     brk = sorted(set(brk))
     per = max(1, (len(brk) + NCPU - 1) // NCPU)
     for i in range(0, len(brk), per):
@@ -112,7 +119,7 @@ def main(ctx, args):
                                 "flags_ic_nb_ne": fl, "expected=got": got})
     cov = {"evaluations": stats["cases"], "distinct_nontrivial": stats["matched"],
            "rule": "patterns = every sequence of <= N tokens from Gen_Regex!Tokens (N=2 quick / 3 thorough) plus a "
-                   "seeded sample of longer ones and a family of bracket expressions (negation, ] first, ranges, classes, - and ^ as members), kept when the reference grammar consumes them wholly; each against "
+                   "seeded sample of longer ones and a family of bracket expressions (negation, ] first, ranges, classes, - and ^ as members) and of groups under * + ? {m,n} and | in contexts that force backtracking, kept when the reference grammar consumes them wholly; each against "
                    "every line of <= L characters over {a,b,A,e-acute,space} + newline and all 8 flag combinations; "
                    "non-trivial = the reference finds a match (span and 3 groups compared)",
            "samples": samples, "exhaustive": True, "stats": stats,
